@@ -15,7 +15,7 @@ PROPERTY = "C10"
 LEVEL = "exploration"
 NUMBA_THREADS = 4
 CLAIM = {
-    "text": "Exploration by runtime monitoring over histories: for short streams (n <= 10) every composition of n into consecutive chunks (2^(n-1)) and every split point for the merge a+b, and for longer streams seeded random compositions, unequal merges (k=1, k=n-1) and merges of merges, are fed to the real ChannelStats (basic and full modes, red-zone framed inputs) and compared after each history with the float64 two-pass definition (count/min/max exact, mean/var/skew/kurtosis within 1e-4 relative) and with each other (1e-5); constant channels must give var == skew == 0 exactly and every statistic must be finite. Thorough varies numba thread counts since the moment kernels are parallel. Added: double-precision inputs (incl. constants that single precision cannot represent), statistics read after every chunk ('peek' histories), merges spelled `a += b`, and merges of accumulators holding 10^5 .. 8x10^6 samples at different levels (count^3 terms). Rounds 7-8 added: single chunks of more than 2^20 elements with 3/96 channels, one level repeated more than 2^16 times in a chunk, and a merged count beyond 2^24. Round 9 added: the reader's accumulator re-read after clean_rfi flagged channels.",
+    "text": "Exploration by runtime monitoring over histories: for short streams (n <= 10) every composition of n into consecutive chunks (2^(n-1)) and every split point for the merge a+b, and for longer streams seeded random compositions, unequal merges (k=1, k=n-1) and merges of merges, are fed to the real ChannelStats (basic and full modes, red-zone framed inputs) and compared after each history with the float64 two-pass definition (count/min/max exact, mean/var/skew/kurtosis within 1e-4 relative) and with each other (1e-5); constant channels must give var == skew == 0 exactly and every statistic must be finite. Thorough varies numba thread counts since the moment kernels are parallel. Added: double-precision inputs (incl. constants that single precision cannot represent), statistics read after every chunk ('peek' histories), merges spelled `a += b`, and merges of accumulators holding 10^5 .. 8x10^6 samples at different levels (count^3 terms). Rounds 7-8 added: single chunks of more than 2^20 elements with 3/96 channels, one level repeated more than 2^16 times in a chunk, and a merged count beyond 2^24. Round 9 added: the reader's accumulator re-read after clean_rfi flagged channels. Round 10 added: bands of 33/40/100/129/250/1031 channels (off every tile size).",
     "design_ref": "DESIGN.md section 3 (C10), 2.2",
     "note": "Trusted: numpy float64 two-pass moments. Wide-range float data are bounded (|x| in {0} U [1e-3, 6.5e4]) so float32 fourth moments cannot overflow. Kurtosis is not judged on zero-variance channels.",
     "technique": "runtime monitoring: partition/merge history enumeration against a two-pass float64 oracle + cross-partition agreement + red-zone canaries",
